@@ -10,8 +10,8 @@ def justified : List ((List Char × List Char × List Char × Nat) × String) :=
   (("generator/ast/derives.rs".toList, "to_tokens".toList, "parse-tokens".toList, 0), "fixed-input: derive names are string constants of the generator"),
   (("generator/ast/derives.rs".toList, "to_tokens".toList, "expect".toList, 0), "fixed-input: derive names are string constants of the generator"),
   (("generator/ast/documentation.rs".toList, "format_with_mdformat".toList, "unwrap".toList, 0), "only with --doc-format (external mdformat process); Mutex/IO result"),
-  (("generator/ast/tokens.rs".toList, "to_tokens".toList, "Ident::new".toList, 0), "ident from the sanitisers (C09 legality theorems); exceptional classes are known findings (KnownRawCrateSuper, KnownRawPassthrough, KnownUnderscoreField, KnownRawSelf, KnownVariantSuffixPanic)"),
-  (("generator/ast/tokens.rs".toList, "to_tokens".toList, "Ident::new".toList, 1), "ident from the sanitisers (C09 legality theorems); exceptional classes are known findings (KnownRawCrateSuper, KnownRawPassthrough, KnownUnderscoreField, KnownRawSelf, KnownVariantSuffixPanic)"),
+  (("generator/ast/tokens.rs".toList, "to_tokens".toList, "Ident::new".toList, 0), "ident from the sanitisers (C09 legality theorems); exceptional classes are known findings (KnownRawPassthrough, KnownUnderscoreField, KnownRawSelf, KnownVariantSuffixPanic)"),
+  (("generator/ast/tokens.rs".toList, "to_tokens".toList, "Ident::new".toList, 1), "ident from the sanitisers (C09 legality theorems); exceptional classes are known findings (KnownRawPassthrough, KnownUnderscoreField, KnownRawSelf, KnownVariantSuffixPanic)"),
   (("generator/ast/types.rs".toList, "<top>".toList, "expect".toList, 0), "static regex literal"),
   (("generator/ast/types.rs".toList, "to_tokens".toList, "syn::parse_str".toList, 0), "type string built from sanitised names and fixed templates; customisation paths come from the command line (C19 type feeder)"),
   (("generator/ast/types.rs".toList, "to_tokens".toList, "panic!".toList, 0), "type string built from sanitised names and fixed templates; customisation paths come from the command line (C19 type feeder)"),
@@ -29,7 +29,7 @@ def justified : List ((List Char × List Char × List Char × Nat) × String) :=
   (("generator/ast/validation_attrs.rs".toList, "to_tokens".toList, "parse-tokens".toList, 5), "numeric literal rendered by format_number / render_integer (C19 numeric feeder)"),
   (("generator/ast/validation_attrs.rs".toList, "to_tokens".toList, "unwrap".toList, 5), "numeric literal rendered by format_number / render_integer (C19 numeric feeder)"),
   (("generator/codegen/attributes.rs".toList, "generate_builder_attrs".toList, "Ident::new".toList, 0), "bon attribute name from a fixed list"),
-  (("generator/codegen/client.rs".toList, "to_tokens".toList, "format_ident!".toList, 0), "known finding KnownOptionsTrace: reqwest::Method::{OPTIONS,TRACE} is not an identifier"),
+  (("generator/codegen/client.rs".toList, "to_tokens".toList, "format_ident!".toList, 0), "HTTP method name from http::Method::as_str for OPTIONS / TRACE (the only methods that reach this arm): an identifier, prefixed in the quote"),
   (("generator/codegen/client.rs".toList, "new".toList, "unwrap".toList, 0), "static LitStr / checked Option (request_type is set whenever response_enum is)"),
   (("generator/codegen/client.rs".toList, "new".toList, "syn::parse_str".toList, 0), "static LitStr / checked Option (request_type is set whenever response_enum is)"),
   (("generator/codegen/client.rs".toList, "parse_body".toList, "format_ident!".toList, 0), "request type name from the sanitiser"),
